@@ -488,15 +488,23 @@ func (c *Ctx) c17Decorators() {
 							continue
 						}
 						fr, _ := core.FieldOfAddr(fa)
-						for _, r2 := range core.Referrers(fa) {
-							if st, ok := r2.(*ssa.Store); ok {
-								if fr.Name == d.cause && st.Val == ssa.Value(errParam) {
-									stored[fr.Name] = true
-								} else if _, isParam := st.Val.(*ssa.Parameter); isParam && fr.Name != d.cause {
-									stored[fr.Name] = true
+						var visit func(addr ssa.Value, depth int)
+						visit = func(addr ssa.Value, depth int) {
+							for _, r2 := range core.Referrers(addr) {
+								if st, ok := r2.(*ssa.Store); ok && st.Addr == addr {
+									if fr.Name == d.cause && st.Val == ssa.Value(errParam) {
+										stored[fr.Name] = true
+									} else if _, isParam := st.Val.(*ssa.Parameter); isParam && fr.Name != d.cause {
+										stored[fr.Name] = true
+									}
+								}
+								// a decoration kept in a nested struct field (origin{file, line, function}): its members
+								if sub, ok := r2.(*ssa.FieldAddr); ok && depth > 0 && fr.Name != d.cause {
+									visit(sub, depth-1)
 								}
 							}
 						}
+						visit(fa, 2)
 					}
 				}
 			}
@@ -741,6 +749,10 @@ func (c *Ctx) isOwnDecoration(v ssa.Value, wrapper ssa.Value, d decorator) bool 
 	if fr, ok := core.FieldOfValue(v); ok && fr.Struct == d.typ && fr.Base == wrapper && fr.Name != d.cause {
 		return true
 	}
+	// a member of a struct-typed decoration field of the wrapper (s.origin.file)
+	if root, pth := pathOf(v); root == wrapper && pth != "" && !strings.Contains(pth, "[]") && !strings.HasPrefix(pth, "."+d.cause) {
+		return true
+	}
 	if a, ok := v.(*ssa.Alloc); ok {
 		n := 0
 		for _, ref := range core.Referrers(a) {
@@ -750,15 +762,15 @@ func (c *Ctx) isOwnDecoration(v ssa.Value, wrapper ssa.Value, d decorator) bool 
 			}
 			for _, r2 := range core.Referrers(fa) {
 				if st, ok := r2.(*ssa.Store); ok {
-					fr, ok := core.FieldOfValue(st.Val)
-					if !ok || fr.Struct != d.typ || fr.Base != wrapper {
+					root, pth := pathOf(core.Strip(st.Val))
+					if root != wrapper || pth == "" || strings.Contains(pth, "[]") || strings.HasPrefix(pth, "."+d.cause) {
 						return false
 					}
 					n++
 				}
 			}
 		}
-		return n == len(d.fields)
+		return n >= len(d.fields) && n > 0
 	}
 	return false
 }
